@@ -488,12 +488,8 @@ func (f *Fn) Guarded(r *Rule, s *Sites, label string, atoms ...AtomPred) bool {
 		r.Fail(key, f.P.Pos(f.Body.Pos()), "no site of %q in %s (rule would be vacuous)", s.Desc, f.Name)
 		return false
 	}
-	cutE := map[[2]int]bool{}
-	for _, a := range atoms {
-		for e := range f.GuardEdges(a) {
-			cutE[e] = true
-		}
-	}
+	// edges on which the disjunction of the given atoms is known to hold
+	cutE := f.EdgesImplyingAny(atoms...)
 	if len(cutE) == 0 {
 		var names []string
 		for _, a := range atoms {
